@@ -9,7 +9,7 @@ props = [json.loads(l)["id"] for l in open(os.path.join(ROOT, "properties.jsonl"
 hook_commits = subprocess.run(["git", "-C", "/repo", "log", "--format=%H", "--grep=^verif hooks"], capture_output=True, text=True).stdout.split()
 checks, na = [], []
 for p in props:
-    if p in registry.PROPS and p in T.CLAIMS:
+    if p in registry.PROPS and p in T.CLAIMS and p not in getattr(T, 'PENDING', {}):
         c = T.CLAIMS[p]
         checks.append({
             "property_id": p,
@@ -23,7 +23,7 @@ for p in props:
             "technique": c["technique"],
         })
     else:
-        na.append({"property_id": p, "reason": T.NOT_CLAIMED.get(p, "no check registered in this commit")})
+        na.append({"property_id": p, "reason": getattr(T, "PENDING", {}).get(p) or T.NOT_CLAIMED.get(p, "no check registered in this commit")})
 m = {
     "version": 1,
     "setup_cmd": "./setup.sh",
